@@ -27,6 +27,7 @@ PLAN = {
     'C07': {'quick': [('MC_fwd.tla', 'MC_fwd.cfg')], 'thorough': [('MC_fwd.tla', 'MC_fwd.cfg'), ('MC_fwd.tla', 'MC_fwd2.cfg'), ('MC_fwd.tla', 'MC_live_fwd.cfg')]},
     'C08': {'quick': [('MC_fwd.tla', 'MC_fwd.cfg')], 'thorough': [('MC_fwd.tla', 'MC_fwd.cfg'), ('MC_fwd.tla', 'MC_fwd2.cfg')]},
     'C09': {'quick': CORE, 'thorough': [('MC_core.tla', 'MC_core_big.cfg'), ('MC_fwd.tla', 'MC_fwd.cfg'), ('MC_par.tla', 'MC_par.cfg')]},
+    'C10': {'quick': [('MC_core.tla', 'MC_time.cfg')], 'thorough': [('MC_core.tla', 'MC_time.cfg'), ('MC_core.tla', 'MC_time_big.cfg')]},
     'C11': {'quick': [('MC_core.tla', 'MC_err.cfg')], 'thorough': [('MC_core.tla', 'MC_err.cfg')]},
     'C13': {'quick': [('MC_hist.tla', 'MC_hist.cfg')], 'thorough': [('MC_hist.tla', 'MC_hist.cfg'), ('MC_hist.tla', 'MC_hist_big.cfg')]},
     'C14': {'quick': [('MC_hist.tla', 'MC_hist.cfg')], 'thorough': [('MC_hist.tla', 'MC_hist.cfg'), ('MC_hist.tla', 'MC_hist_big.cfg')]},
